@@ -229,13 +229,40 @@ type reqStats struct {
 }
 
 // runRound executes the scenarios on a fresh proxy + cluster and appends the trace to `out`.
-func runRound(scs []*reqScenario, nodes, numConns, nclients, workers int, out string, st *reqStats, dropRate float64, salt int64, maxDelay int) error {
+type roundOpts struct {
+	compression string
+	restarts    int
+	addNode     bool
+}
+
+func runRound(scs []*reqScenario, nodes, numConns, nclients, workers int, out string, st *reqStats, dropRate float64, salt int64, maxDelay int, ro roundOpts) error {
 	t := tracer.New()
 	e, err := env.Start(env.Options{Nodes: nodes, NumConns: numConns, Hooks: true, Tracer: t, Keyspaces: []string{"ks"}})
 	if err != nil {
 		return err
 	}
 	defer e.Close()
+	if ro.addNode {
+		// a node joins after the proxy connected: its pools are created by the AddEvent path. The proxy learns
+		// about it when the control connection is re-established (queryHosts + mergeHosts).
+		ip := fakecql.IP(env.Block(), nodes+1)
+		if err := e.C.AddNode(ip); err != nil {
+			return err
+		}
+		e.IPs = append(e.IPs, ip)
+		if cc := e.C.ControlConn(); cc != nil {
+			cc.Close("force-refresh")
+		}
+		deadline := time.Now().Add(8 * time.Second)
+		for time.Now().Before(deadline) {
+			if n := e.C.Node(ip); n != nil && len(n.Conns()) >= numConns {
+				break
+			}
+			time.Sleep(20 * time.Millisecond)
+		}
+		time.Sleep(150 * time.Millisecond)
+		t.Emit("Ready", "hosts", e.HostKeys(), "numconns", numConns)
+	}
 	rr := &reqRun{e: e, rnd: newRand(salt), maxDelay: maxDelay}
 	e.C.Script = rr.script
 	e.C.PrepareScript = func(a *fakecql.Attempt) fakecql.Outcome {
@@ -244,7 +271,7 @@ func runRound(scs []*reqScenario, nodes, numConns, nclients, workers int, out st
 		}
 		return fakecql.Outcome{Kind: fakecql.OK}
 	}
-	setup, err := e.StartedClient(primitive.ProtocolVersion4, "")
+	setup, err := e.StartedClient(primitive.ProtocolVersion4, ro.compression)
 	if err != nil {
 		return err
 	}
@@ -254,13 +281,37 @@ func runRound(scs []*reqScenario, nodes, numConns, nclients, workers int, out st
 	}
 	var clients []*cqlclient.Client
 	for i := 0; i < nclients; i++ {
-		c, err := e.StartedClient(primitive.ProtocolVersion4, "")
+		c, err := e.StartedClient(primitive.ProtocolVersion4, ro.compression)
 		if err != nil {
 			return err
 		}
 		clients = append(clients, c)
 	}
+	if ro.compression != "" {
+		// the compressed session is created lazily by the first request: do that during set-up and
+		// announce its connections as the initial pool
+		if _, err := setup.Roundtrip(frame.NewFrame(primitive.ProtocolVersion4, 99, &message.Query{Query: "SELECT * FROM ks.warmup",
+			Options: &message.QueryOptions{Consistency: primitive.ConsistencyLevelOne}}), "", "setup-warmup", 10*time.Second); err != nil {
+			return err
+		}
+		t.Emit("Ready", "hosts", e.HostKeys(), "numconns", numConns)
+	}
 	t.Emit("ScenarioStart")
+	stopRestarts := make(chan struct{})
+	if ro.restarts > 0 {
+		go func() {
+			rnd := newRand(salt + 991)
+			for i := 0; i < ro.restarts; i++ {
+				select {
+				case <-stopRestarts:
+					return
+				case <-time.After(time.Duration(20+rnd.Intn(60)) * time.Millisecond):
+				}
+				e.C.RestartNode(e.IPs[rnd.Intn(len(e.IPs))])
+			}
+		}()
+	}
+	defer close(stopRestarts)
 	var wg sync.WaitGroup
 	work := make(chan *reqScenario)
 	// every worker owns one (client, stream) pair: equal stream ids are used on different clients deliberately
@@ -382,6 +433,10 @@ func init() {
 		dropRate := fs.Float64("droprate", 0, "probability of a random connection drop per tick")
 		maxDelay := fs.Int("delay", 0, "maximum random response delay in ms (responses are reordered)")
 		okBias := fs.Int("okbias", 3, "weight of plain ok outcomes in random scenarios")
+		compression := fs.String("compression", "", "clients negotiate this compression (lz4|snappy)")
+		restarts := fs.Int("restarts", 0, "random node restarts per round (connections dropped, prepared statements forgotten)")
+		addNode := fs.Bool("addnode", false, "a node joins after the proxy connected")
+		kinds := fs.String("kinds", "", "comma separated request kinds for random scenarios (query,execute,batch,graph)")
 		_ = fs.Parse(args)
 		os.Remove(*out)
 		var scs []*reqScenario
@@ -394,6 +449,10 @@ func init() {
 			}
 			for i := 0; i < *random; i++ {
 				sc := &reqScenario{ID: fmt.Sprintf("rnd%d", i), Idem: rnd.Intn(2) == 0}
+				if *kinds != "" {
+					ks := strings.Split(*kinds, ",")
+					sc.Kind = ks[rnd.Intn(len(ks))]
+				}
 				n := rnd.Intn(4)
 				for k := 0; k < n; k++ {
 					sc.Outcomes = append(sc.Outcomes, alpha[rnd.Intn(len(alpha))])
@@ -419,7 +478,8 @@ func init() {
 			if j > len(scs) {
 				j = len(scs)
 			}
-			if err := runRound(scs[i:j], *nodes, *numConns, *nclients, *workers, *out, st, *dropRate, int64(k), *maxDelay); err != nil {
+			if err := runRound(scs[i:j], *nodes, *numConns, *nclients, *workers, *out, st, *dropRate, int64(k), *maxDelay,
+				roundOpts{compression: *compression, restarts: *restarts, addNode: *addNode}); err != nil {
 				return err
 			}
 		}
